@@ -2352,14 +2352,18 @@ impl<I: SignedInteger> Subframe<I> {
             for split in coefficients.len()..channel.len() {
                 let (predicted, residuals) = channel.split_at_mut(split);
 
-                residuals[0] += I::from_i64(
-                    predicted
-                        .iter()
-                        .rev()
-                        .zip(coefficients)
-                        .map(|(x, y)| (*x).into() * y)
-                        .sum::<i64>()
-                        >> qlp_shift,
+                // prediction + residual is only defined modulo the sample
+                // width, so it must not be range-checked
+                residuals[0] = I::from_i64(
+                    Into::<i64>::into(residuals[0]).wrapping_add(
+                        predicted
+                            .iter()
+                            .rev()
+                            .zip(coefficients)
+                            .map(|(x, y)| (*x).into() * y)
+                            .sum::<i64>()
+                            >> qlp_shift,
+                    ),
                 );
             }
         }
